@@ -10,11 +10,12 @@ import (
 // RulesCfg: the limits the validator reads.
 type RulesCfg struct {
 	MaxObjects, MaxDepth, MaxArray, MaxIdent, MaxRefs uint64
+	MaxMarkers                                        uint64 // 0 = leave the default
 }
 
 func defaultRulesCfg() RulesCfg {
 	c := configuration.New().Rules
-	return RulesCfg{c.MaxObjectCount, c.MaxContainerDepth, c.MaxArraySizeBytes, c.MaxIdentifierLength, c.MaxLocalReferenceCount}
+	return RulesCfg{MaxObjects: c.MaxObjectCount, MaxDepth: c.MaxContainerDepth, MaxArray: c.MaxArraySizeBytes, MaxIdent: c.MaxIdentifierLength, MaxRefs: c.MaxLocalReferenceCount}
 }
 
 func (rc RulesCfg) config() *configuration.Configuration {
@@ -24,10 +25,23 @@ func (rc RulesCfg) config() *configuration.Configuration {
 	cfg.Rules.MaxArraySizeBytes = rc.MaxArray
 	cfg.Rules.MaxIdentifierLength = rc.MaxIdent
 	cfg.Rules.MaxLocalReferenceCount = rc.MaxRefs
+	if rc.MaxMarkers != 0 {
+		cfg.Rules.MaxMarkerCount = rc.MaxMarkers
+	}
 	return cfg
 }
 
 func (rc RulesCfg) coq() string {
+	// the model's single marker limit is the smaller of the two the code checks against one counter
+	refs := rc.MaxRefs
+	mm := rc.MaxMarkers
+	if mm == 0 {
+		mm = configuration.New().Rules.MaxMarkerCount
+	}
+	if mm < refs {
+		refs = mm
+	}
+	rc.MaxRefs = refs
 	return fmt.Sprintf("{| max_object_count := %d; max_container_depth := %d; max_array_size_bytes := %d; max_identifier_length := %d; max_local_reference_count := %d; expected_version := 0 |}",
 		rc.MaxObjects, rc.MaxDepth, rc.MaxArray, rc.MaxIdent, rc.MaxRefs)
 }
